@@ -1446,8 +1446,16 @@ class SQLObject(with_metaclass(declarative.DeclarativeMeta, object)):
                 v = from_python(
                     v, sqlbuilder.SQLObjectState(cls, connection=connection))
             new_value.append(v)
-        condition = sqlbuilder.AND(
-            *[getattr(cls.q, _n) == _v for _n, _v in zip(name, new_value)])
+        conditions = []
+        for _n, _v in zip(name, new_value):
+            # The values are in their database form already: compare
+            # them as they are (``field == value`` would convert again).
+            if _v is None:
+                conditions.append(sqlbuilder.ISNULL(getattr(cls.q, _n)))
+            else:
+                conditions.append(
+                    sqlbuilder.SQLOp('=', getattr(cls.q, _n), _v))
+        condition = sqlbuilder.AND(*conditions)
         return (connection or cls._connection)._SO_selectOneAlt(
             cls,
             [cls.sqlmeta.idName]
